@@ -27,6 +27,10 @@ mod c03_owned;
 mod c10_result;
 #[cfg(kani)]
 mod c12_write;
+#[cfg(all(kani, feature = "cppwriter"))]
+mod cpp_string_model;
+#[cfg(all(kani, feature = "cppwriter"))]
+mod c12_cpp_writer;
 
 #[cfg(all(kani, test))]
 mod checking_alloc;
